@@ -42,6 +42,10 @@ if TYPE_CHECKING:
     from liquid.token import Token
 
 
+RE_MESSAGE_FORMAT = re.compile(r"%%|%\((\w+)\)s")
+"""Matches an escaped percent sign or a named message variable."""
+
+
 class TranslateNode(Node, TranslatableTag):
     """The built-in _translate_ tag node."""
 
@@ -256,12 +260,16 @@ class TranslateNode(Node, TranslatableTag):
         if autoescape:
             message_text = Markup(message_text)
 
-        _vars = {
-            k: to_liquid_string(context.resolve(k), autoescape=autoescape)
-            for k in self.re_vars.findall(message_text)
-        }
+        def _replace(match: "re.Match[str]") -> str:
+            name = match.group(1)
+            if name is None:
+                return "%"  # An escaped percent sign, `%%`.
+            return to_liquid_string(context.resolve(name), autoescape=autoescape)
 
-        return message_text % _vars
+        formatted = RE_MESSAGE_FORMAT.sub(_replace, message_text)
+        if autoescape:
+            return Markup(formatted)
+        return formatted
 
 
 class TranslateTag(Tag):
